@@ -18,7 +18,40 @@ UA = 'iceoryx2_bb_lock_free::spmc::unrestricted_atomic::'
 WC = r'write_cell$'
 
 
+def type_check_coverage(F, R):
+    """Reader/Writer::get_entry_offset hand out a typed handle only if the requested value type equals the stored TypeDetail in EVERY field
+    (variant, type_name, size, alignment): a same-named type of another size would make the handle copy across both seqlock cells / into the
+    neighbouring entry.  Either the whole struct is compared, or the field-wise comparisons cover all fields of TypeDetail."""
+    td = F.adts.get('iceoryx2::service::static_config::message_type_details::TypeDetail')
+    if not td:
+        R.missing('TypeDetail')
+        return
+    allf = set(x['name'] for x in td['variants'][0]['fields'])
+    n = 0
+    for f in F.find_fns(r'^iceoryx2::port::(reader::Reader|writer::Writer)::<.*>::get_entry_offset$'):
+        n += 1
+        whole = False
+        fields = set()
+        for s_ in f.sites:
+            if s_.is_call and s_.callee and re.search(r'PartialEq.*::(ne|eq)$', s_.callee):
+                a = [sym_nstr(sym(f, x)) for x in s_.args]
+                if any(x.endswith('.type_details') for x in a):
+                    whole = True
+                for x in a:
+                    m = re.search(r'\.type_details\.(\w+)$', x)
+                    if m:
+                        fields.add(m.group(1))
+        for b in range(len(f.blocks)):
+            t = f.blocks[b]['t']
+            if t[0] == 'switch':
+                for m in re.finditer(r'\.type_details\.(\w+)', sym_nstr(sym(f, t[1]))):
+                    fields.add(m.group(1))
+        R.ob('COVERAGE', 'COVERAGE::%s::type-check-covers-every-TypeDetail-field' % fnkey(f), whole or fields >= allf, 'the stored type is compared %s; TypeDetail has %s' % ('as a whole struct' if whole else 'field-wise on %s (missing: %s)' % (sorted(fields), sorted(allf - fields)), sorted(allf)), '%s:%s' % (f.file, f.line), f)
+    R.floor('get_entry_offset functions', n, 2)
+
+
 def check(F, R, tier):
+    type_check_coverage(F, R)
     lib.cas_loops_fresh(R, F, r'^iceoryx2_bb_lock_free::spmc::unrestricted_atomic::', 1, 'a decision computed once before the loop is stale after the first failed CAS')
     store = F.fn(UA + 'UnrestrictedAtomic::<T>::store')
     upd1 = F.fn(UA + "Producer::<'_, T>::__internal_update_write_cell")
